@@ -23,6 +23,7 @@ import (
 	"encoding/json"
 	"fmt"
 	"math"
+	"math/big"
 	"os"
 	"os/exec"
 	"sort"
@@ -449,7 +450,7 @@ func codecSuite(seed uint64, tier, outDir string) (*core.Result, error) {
 		"reg.signing", "aserver.enc.loc<=255", "aserver.enc.loc>255", "migration.enc", "smap.enc", "smap.enc.too-long", "smap.dec.ok", "smap.dec.refused",
 		"smap.loc=0", "smap.loc=1", "smap.loc=255", "smap.loc=256", "smap.loc=65535",
 		"stats.enc", "stats.negative-zero", "stream.records=0", "stream.records=1", "stream.records=2", "stream.records=3", "stream.cut.refused", "stream.cut.ok", "stream.hostile-count",
-		"golden", "sign.deterministic", "flip.message", "flip.signature", "flip.key")
+		"golden", "sign.deterministic", "flip.message", "flip.signature", "flip.malleated-twin", "flip.key")
 	res.Rule = "field values from boundary tables (0, 1, max, sign bit, subnormal/-0/inf float bit patterns, no NaN) mixed with random; inputs of length K-2..K+2; streams of 0..3 weekly records with 0..2 devices cut at every structural boundary +-1; server maps with 0..k entries and location lengths 0,1,255,256,65535; single-bit flips of message/signature/key against the real glow.Verify; a case is non-trivial when the real codec accepted it, distinct by (class, canonical value)"
 	return res, nil
 }
@@ -1232,6 +1233,21 @@ func (c *codecRun) crypto(scale int) {
 				s2[bit/8] ^= 1 << uint(bit%8)
 				return glow.Verify(pub, m.sb, s2)
 			})
+			// the (r, n-s) twin of the signature: the same mathematical signature in non-canonical form; it
+			// was never produced by the signer and must not verify (otherwise anybody can turn one signed
+			// value into a second, different datagram)
+			{
+				n := new(big.Int)
+				n.SetString("fffffffffffffffffffffffffffffffebaaedce6af48a03bbfd25e8cd0364141", 16)
+				sv := new(big.Int).SetBytes(sig[32:])
+				sv.Sub(n, sv)
+				tw := sig
+				sv.FillBytes(tw[32:])
+				c.res.Count("flip.malleated-twin")
+				if tw != sig && glow.Verify(pub, m.sb, tw) {
+					c.res.Fail("the non-canonical twin (r, n-s) of a signature verifies: signatures are malleable", "malleable-signature", map[string]interface{}{"type": m.typ, "message": ccShort(m.sb), "key": hex.EncodeToString(pub[:]), "sig": hex.EncodeToString(sig[:]), "twin": hex.EncodeToString(tw[:])})
+				}
+			}
 			flip("key", 256, true, func(bit int) bool {
 				k2 := pub
 				k2[bit/8] ^= 1 << uint(bit%8)
